@@ -32,7 +32,7 @@ func verifC01RoundTrip(nodes []ast.Node, isList bool, entry int) {
 	}
 	for i := range nodes {
 		if d := verifEqNode(nodes[i], nodes2[i], ""); d != "" {
-			verifFail("C01/ast-differs", d)
+			verifFail("C01/ast-differs", verifLastStep(d))
 			return
 		}
 	}
@@ -115,4 +115,14 @@ func verifHarness_C01_lit(k, form int) {
 		x = body
 	}
 	verifC01(x, entry)
+}
+
+// verifLastStep keeps the innermost "Type.Field..." step of a difference path.
+func verifLastStep(d string) string {
+	for i := len(d) - 1; i >= 0; i-- {
+		if d[i] == '/' {
+			return d[i:]
+		}
+	}
+	return d
 }
